@@ -181,22 +181,28 @@ theorem rangesOverlap_false {a la b lb : Nat} (h : rangesOverlap a (a + la) b (b
   omega
 
 /-- `_fsm_init_lw` on an initialised allocator (growth / relocation of the bitmap to a place behind the header)
-    preserves the invariant, whatever it returns -/
-theorem inv_initLw {s : St} (hI : Inv s) (bo bl : Nat) (hhdr : hdrBlk s ≤ bo / bsz s) : Inv (initLw s bo bl).1 := by
+    preserves the invariant, whatever it returns; header and caller blocks outside the new bitmap area stay allocated -/
+theorem initLw_spec {s : St} (hI : Inv s) (bo bl : Nat) (hhdr : hdrBlk s ≤ bo / bsz s) :
+    Inv (initLw s bo bl).1 ∧
+    ∀ i, UserUsed s i → ¬ (bo / bsz s ≤ i ∧ i < bo / bsz s + bl / bsz s) → UserUsed (initLw s bo bl).1 i := by
+  have hens : ∀ i, UserUsed s i → UserUsed (ensureSize s (bo + bl)) i := by
+    intro i h
+    have hf := ensureSize_frame s (bo + bl)
+    unfold UserUsed; rw [ensureSize_bits, hf.bmOffBlk, hf.bmLenBlk]; exact h
   unfold initLw
   split
-  · exact hI
+  · exact ⟨hI, fun i h _ => h⟩
   · split
-    · exact hI
+    · exact ⟨hI, fun i h _ => h⟩
     · split
-      · exact hI
+      · exact ⟨hI, fun i h _ => h⟩
       · rename_i hal hge hfit
         simp only
         have hI1 := inv_ensureSize hI (bo + bl)
         have hf1 := ensureSize_frame s (bo + bl)
-        generalize ensureSize s (bo + bl) = s1 at hI1 hf1
+        generalize ensureSize s (bo + bl) = s1 at hI1 hf1 hens
         split
-        · exact hI1
+        · exact ⟨hI1, fun i h _ => hens i h⟩
         · rename_i hov
           have hlp := hI1.bmlen_pos
           have hk := bsz_pos s1
@@ -222,16 +228,21 @@ theorem inv_initLw {s : St} (hI : Inv s) (bo bl : Nat) (hhdr : hdrBlk s ≤ bo /
           have hsumB := div_add_div_of_mod hk hbo hbl
           have hin := hI1.bm_in
           have hsz := hI1.size
+          have hsz2 := hI2.size
+          rw [hM.nbits] at hsz2
           unfold Fsm.nbits Fsm.bmOffBlk Fsm.bmLenBlk at hin
           unfold Fsm.nbits at hsz
-          apply inv_deallocLw hI2
-          · exact hlp
-          · rw [hM.nbits]; omega
-          · intro i h1 h2
+          have hend2 : s1.bmoff / bsz s1 + s1.bmlen / bsz s1 ≤ nbits (installBitmap s1 bo bl) := by
+            rw [hM.nbits]; omega
+          have hset2 : ∀ i, s1.bmoff / bsz s1 ≤ i → i < s1.bmoff / bsz s1 + s1.bmlen / bsz s1 →
+              bit (installBitmap s1 bo bl).bits i = true := by
+            intro i h1 h2
             apply hold i (by omega)
             exact hI1.bm i h1 h2
-          · rw [hM.hdrBlk]; exact hI1.hb
-          · rw [hM.bmOffBlk, hM.bmLenBlk]
+          have hoff2 : hdrBlk (installBitmap s1 bo bl) ≤ s1.bmoff / bsz s1 := by rw [hM.hdrBlk]; exact hI1.hb
+          have hdis2 : s1.bmoff / bsz s1 + s1.bmlen / bsz s1 ≤ bmOffBlk (installBitmap s1 bo bl) ∨
+              bmOffBlk (installBitmap s1 bo bl) + bmLenBlk (installBitmap s1 bo bl) ≤ s1.bmoff / bsz s1 := by
+            rw [hM.bmOffBlk, hM.bmLenBlk]
             rcases hdis with c | c
             · left
               have := Nat.div_le_div_right (c := bsz s1) c
@@ -239,5 +250,21 @@ theorem inv_initLw {s : St} (hI : Inv s) (bo bl : Nat) (hhdr : hdrBlk s ≤ bo /
             · right
               have := Nat.div_le_div_right (c := bsz s1) c
               omega
+          have hlp' : 0 < s1.bmlen / bsz s1 := hlp
+          refine ⟨inv_deallocLw hI2 hlp' hend2 hset2 hoff2 hdis2, ?_⟩
+          intro i hu hnot
+          have hu1 := hens i hu
+          obtain ⟨_, hb, hf, _⟩ := deallocLw_spec hI2 hlp' hend2 hset2 hoff2
+          obtain ⟨u1, u2, u3⟩ := hu1
+          unfold Fsm.bmOffBlk Fsm.bmLenBlk at u3
+          have hnew := hold i u1 u2
+          unfold UserUsed
+          rw [hb, size_setRange, bit_setRange, hf.bmOffBlk, hf.bmLenBlk, hM.bmOffBlk, hM.bmLenBlk, hsz2]
+          refine ⟨by omega, ?_, by rw [hf1.bsz]; exact hnot⟩
+          have : ¬ (s1.bmoff / bsz s1 ≤ i ∧ i < s1.bmoff / bsz s1 + s1.bmlen / bsz s1 ∧ i < bl * 8) := by omega
+          rw [if_neg this]; exact hnew
+
+theorem inv_initLw {s : St} (hI : Inv s) (bo bl : Nat) (hhdr : hdrBlk s ≤ bo / bsz s) : Inv (initLw s bo bl).1 :=
+  (initLw_spec hI bo bl hhdr).1
 
 end IwModel.Fsm
